@@ -1,5 +1,5 @@
 CONSTANTS
-  Cfgs <- CfgsWide
+  Cfgs <- CfgsWide3
   BppSet = {1, 2, 4, 8, 16, 24, 32}
   Depth = 3
   Hist = FALSE
